@@ -386,6 +386,31 @@ def run(tier, t0):
                     res.violation('C14.4', 'C14.4|mask32', g, g.line, 'on a 32-bit CPU the crash address is returned as %s, not truncated to 32 bits and zero-extended' % e[:80])
                 if not is32 and pw[0] != ('not', ) and e.startswith('(cast u64 (cast u32 ') and not isinstance(pw[0], tuple):
                     res.violation('C14.4', 'C14.4|mask64', g, g.line, 'the crash address is truncated to 32 bits on a CPU whose pointer width is not 32 bits')
+    # ---- C14.9 the Windows error decomposition: severity / facility / error masks partition the 32-bit code and the
+    # facility field is shifted down by exactly its position (a narrower facility mask makes an unknown code with a stray
+    # high facility bit look like a known facility)
+    res.rule('C14.9', 0, floor=1, note='SEVERITY / FACILITY / ERROR masks of from_windows_error_with_facility are disjoint, cover the word, and the facility shift is the mask position')
+    FW = 'minidump::minidump::CrashReason::from_windows_error_with_facility'
+    fw = md.fn(FW)
+    if fw is None:
+        res.error('C14.9', '%s not found' % FW)
+    else:
+        ms = dict((k, prog.const_int('%s::%s' % (FW, k), 'minidump')) for k in ('SEVERITY_MASK', 'FACILITY_MASK', 'ERROR_MASK'))
+        res.rule('C14.9', 1)
+        if any(v is None for v in ms.values()):
+            res.error('C14.9', 'mask statics not found: %s' % ms)
+        else:
+            sv, fv, ev = ms['SEVERITY_MASK'], ms['FACILITY_MASK'], ms['ERROR_MASK']
+            shifts = []
+            for b in sorted(fw.reach):
+                for s_ in fw.blocks[b]['s']:
+                    if s_['k'] == 'assign' and s_['rv'].get('k') == 'bin' and s_['rv'].get('op') == 'Shr':
+                        tr = fw.expand(fw.rvalue_tree(s_['rv']))
+                        if 'FACILITY_MASK' in show(tr) and tr[3][0] == 'int':
+                            shifts.append(tr[3][1])
+            tz = (fv & -fv).bit_length() - 1 if fv else -1
+            if (sv | fv | ev) != 0xffffffff or (sv & fv) or (fv & ev) or (sv & ev) or shifts != [tz]:
+                res.violation('C14.9', 'C14.9|masks', fw, fw.line, 'the masks 0x%08x / 0x%08x / 0x%08x do not partition the 32-bit code (union 0x%08x) or the facility field is shifted by %s instead of %d' % (sv, fv, ev, sv | fv | ev, shifts, tz))
     # ExceptionInfo gets reason and address from these functions
     ged = [f for f in mp.fns if re.search(r"MinidumpInfo::<'a>::get_exception_details$", f.qual)]
     if len(ged) != 1:
